@@ -22,17 +22,17 @@ checks = {
          "Generated injection points with whatever is in flight then."),
  "C16": ("stateful PBT: adoption invariant (mapping == pre-spawned entity, entity-count bookkeeping) after every client frame", "4",
          "Generated timings of mapping vs spawn with surrounding traffic."),
- "C06": ("exhaustive byte strings <=2 (<=3 thorough) per client channel + structure-aware mutation PBT of genuine messages + libFuzzer campaign (thorough); oracle: no panic/abort, allocation bound, honest client still served", "4",
+ "C06": ("exhaustive byte strings <=2 (<=3 thorough) per client channel + structure-aware mutation PBT of genuine messages (incl. an event with length-prefixed collections and a two-target trigger) + libFuzzer campaign (thorough); oracle: no panic/abort/hang (per-case watchdog), allocation bound, honest client still served", "4",
          "Enumerates a finite input space completely and searches beyond it with generated mutations; crash, allocation and serving oracles inside the target."),
- "C10": ("PBT with operational size measurement (shadow clients, no decoding) + generated delivery subsets; oracle: payload conservation, size clauses, group all-or-nothing", "4",
+ "C10": ("PBT with operational size measurement (shadow clients, no decoding) + generated delivery subsets over graphs of two relationship types (incl. mutual relations, server restarts); oracle: payload conservation, size clauses, group all-or-nothing", "4",
          "Generated sizes around the splitting boundaries, evolving relationship graphs and delivery subsets."),
- "C11": ("stateful PBT: idle-silence and re-send oracles by message counts/lengths under generated ack loss/delay/junk", "4",
+ "C11": ("stateful PBT: idle-silence and re-send oracles by message counts/lengths under generated ack loss/delay/junk, unauthorized peers, diverging real/virtual clocks", "4",
          "Generated acknowledgement patterns; counts and lengths only."),
  "C12": ("model-based PBT: operation sequences vs a plain-set reference model; end-to-end per-tick message accounting", "4",
          "Reference-model comparison over generated confirmation sequences incl. wrap-around and window gaps."),
- "C13": ("stateful PBT over a configuration walk of one App; tagged payloads found by raw search in drain_sent", "4",
+ "C13": ("stateful PBT over a configuration walk of one App; tagged payloads found by raw search in drain_sent; second unit over the real example backend (loopback) with the connection dropped around the emission frame", "4",
          "Generated status walks and emission frames in all four configurations."),
- "C14": ("metamorphic PBT: single-step edits of registration sequences; equality of hashes <=> equality of canonical sequences; end-to-end authorization", "4",
+ "C14": ("metamorphic PBT: single-step edits of registration sequences; equality of hashes <=> equality of canonical sequences, also across differently built apps and processes; end-to-end authorization", "4",
          "Generated registration sequences and edits; cross-process determinism."),
  "C15": ("round-trip PBT + exhaustive enumeration of all byte strings <=3 + mutation-based decoding + libFuzzer campaign (thorough)", "4",
          "Exhaustive over boundary lattice and short strings, random beyond."),
